@@ -30,6 +30,7 @@ import (
 
 // localFileSystem is the implementation of FileSystem interface.
 func (*localFileSystem) CreateLockFile(name string, permission Mode) (File, error) {
+	verifSys("create", name, 1)
 	file, err := os.OpenFile(name, os.O_RDWR|os.O_CREATE|os.O_TRUNC, os.FileMode(permission))
 	switch {
 	case err == nil:
@@ -61,6 +62,7 @@ func (*localFileSystem) CreateLockFile(name string, permission Mode) (File, erro
 }
 
 func (fs *localFileSystem) SyncPath(name string) {
+	verifSys("syncdir", name, 0)
 	file, err := os.Open(name)
 	if err != nil {
 		fs.logger.Panic().Str("name", name).Err(err).Msg("failed to open file")
